@@ -1372,7 +1372,9 @@ impl World {
                         upd.relays = Some(v);
                     }
                     DataChange::RelayShapes(n) => {
-                        let texts: Vec<&str> = match n % 6 {
+                        let texts: Vec<&str> = match n % 7 {
+                            // an empty relay set is a value too
+                            6 => vec![],
                             0 => vec!["wss://relay7.example.com/"],
                             1 => vec!["wss://relay7.example.com:4848/path/x"],
                             2 => vec!["wss://RELAY8.Example.COM"],
@@ -1381,10 +1383,10 @@ impl World {
                             _ => vec!["wss://relay7.example.com/a b", "wss://relay6.example.com"],
                         };
                         let v: Vec<RelayUrl> = texts.iter().filter_map(|t| RelayUrl::parse(t).ok()).collect();
-                        if v.is_empty() {
+                        if v.is_empty() && n % 7 != 6 {
                             return Ok(());
                         }
-                        what = format!("relay-shapes-{}", n % 6);
+                        what = format!("relay-shapes-{}", n % 7);
                         upd.relays = Some(v);
                     }
                     DataChange::RotateId(n) => {
@@ -1518,7 +1520,27 @@ impl World {
                     .filter(|i| !self.invited.contains(i) && self.clients[*i].mdk.is_some())
                     .take(want)
                     .collect();
-                if *extra >= 2 {
+                if *extra == 3 {
+                    // a second key package of somebody who is a member already (another device of
+                    // the same identity): that identity then holds two leaves
+                    // (per leaf, not per identity)
+                    let mine: Vec<String> = self.level(m).ok().flatten().map(|l| l.members.iter().map(|(_, p)| p.clone()).collect()).unwrap_or_default();
+                    let second: Option<usize> = (0..self.end_spare).find(|&i| {
+                        Some(i) != self.reference
+                            && Some(i) != self.twin.map(|(k, _)| k)
+                            && i != m
+                            && self.clients[i].mdk.is_some()
+                            && self.clients[i].cur.is_some()
+                            && mine.iter().filter(|p| **p == self.clients[i].pk_hex()).count() == 1
+                    });
+                    match second {
+                        Some(b) => {
+                            spares = vec![b];
+                            self.count("op:add_members:second-leaf-for-a-member");
+                        }
+                        None => return Ok(()),
+                    }
+                } else if *extra >= 2 {
                     // re-invite somebody who was removed (or left) and has processed it: the adder
                     // no longer lists it, its own copy of the group is inactive
                     let mine = self.local_members(m);
@@ -1599,12 +1621,18 @@ impl World {
                             ..Named::default()
                         };
                         self.count("op:add_members");
+                        if *extra == 3 {
+                            self.count("op:add_members:second-leaf-for-a-member:committed");
+                        }
                         obs.after_call(self, m, "add_members")?;
                         self.after_commit_created(m, idx, *apply, obs)?;
                     }
                     Err(e) => {
                         self.sink(&e);
                         self.note(format!("c{m} add_members refused: {e}"));
+                        if *extra == 3 {
+                            self.count("op:add_members:second-leaf-for-a-member:refused");
+                        }
                         self.count("op:commit-refused");
                     }
                 }
@@ -1630,7 +1658,17 @@ impl World {
                 let Some(k) = pick(*target, candidates.len()) else {
                     return Ok(());
                 };
-                let t = candidates[k].clone();
+                let mut t = candidates[k].clone();
+                // an identity that holds two leaves is the interesting one to name
+                let leaves: Vec<String> = self.level(m).ok().flatten().map(|l| l.members.iter().map(|(_, p)| p.clone()).collect()).unwrap_or_default();
+                if let Some(d) = candidates.iter().find(|p| leaves.iter().filter(|q| q == *p).count() > 1) {
+                    if *extra >= 1 || *target % 2 == 0 {
+                        t = (*d).clone();
+                    }
+                }
+                if leaves.iter().filter(|q| **q == t).count() > 1 {
+                    self.count("op:remove_members:identity-with-two-leaves");
+                }
                 let mut targets = vec![t.clone()];
                 for j in 0..(*extra).min(2) {
                     if let Some(k2) = pick(target.rotate_left(5 + 6 * j as u32), candidates.len()) {
